@@ -27,7 +27,7 @@ use vmodel::*;
 pub fn spec() -> PropSpec {
     PropSpec {
         id: "C08",
-        rule: "history sub-checks: a case = (odd modulus m from the classes {1, 3, 2^B-1, 2^(B-1)+1, 2^(B-1)-1, ~2^B/3, ~2^B/4, 2^k±1 at limb boundaries, whole zero high limbs, small primes, 2^B-c, top-limb edges, P-256 order, random odd}, 4 registers initialised with new(v), 0..=64 operations over {Add, Sub, Mul, Square, Neg, Double, DivBy2, New, Zero, One, Select, CopyFrom, FromMont, Renew(new(retrieve)), MulChain(one multiplier object: mul, square, mul)}; integers for new from {0, 1, m-1, (m±1)/2, m-2, random < m, m, m+1, 2^B-1, any n-limb integer}); each operation uses one API form chosen by the tape (inherent method, operator by value / by reference, *_assign, Monty / Square / SquareAssign / MontyMultiplier trait forms, subtle selection forms). After EVERY step the destination register is compared with the BigUint model: stored representation == value*R mod m (so < m), every accessor agrees, every retrieve form == value, zero queries, params(), PartialEq / ct_eq against a source register; at the end all registers are re-checked. dyn histories run the same history on MontyForm<N> and on BoxedMontyForm of the same precision; const histories run it on ConstMontyForm, on MontyForm (from_const_params) and on BoxedMontyForm (from_const_params) and check From<&ConstMontyForm> / from_montgomery conversions of every intermediate value. non-trivial: the history has >= 1 multiplication (Mul, Square, MulChain) followed later by >= 1 Add/Sub and length >= 8, OR m is one of the adversarial classes named in the property (1, 3, 2^B-1, 2^(B-1)±1, ~2^B/3, ~2^B/4, 2^k±1 at a limb boundary, whole zero high limbs); distinct by (limb count, modulus class, op-kind multiset). params sub-checks: one modulus per case, non-trivial when the modulus is adversarial or > 1, distinct by modulus limbs. reduction/mul_mod sub-checks: distinct by (m, operands); non-trivial when the final subtraction or top carry is needed, the upper half of T is non-zero, or m adversarial (reduction) / operands > 1 or m adversarial (mul_mod). surface/* sub-checks (API-surface audit): the history / params / reduction / mul_mod / serde-construction checks above at 5 and 7 limbs with the same rules; surface/select: two moduli, two values, one of the six selection forms (subtle conditional_select / conditional_assign / conditional_swap, ConstantTimeSelect ct_select / ct_assign / ct_swap) for the parameter set and one for the value, then arithmetic with what was selected, non-trivial by the params rule on the chosen modulus; surface/generic-integer-monty: a fixed 19-step expression (mul steps followed by add/sub steps) written against the Monty trait bound only, every step compared, always non-trivial; surface/const-select+zeroize+random: ConstMontyForm through the ConstantTimeSelect forms, Zeroize and Random, non-trivial by the params rule.",
+        rule: "history sub-checks: a case = (odd modulus m from the classes {1, 3, 2^B-1, 2^(B-1)+1, 2^(B-1)-1, ~2^B/3, ~2^B/4, 2^k±1 at limb boundaries, whole zero high limbs, small primes, 2^B-c, top-limb edges, P-256 order, random odd}, 4 registers initialised with new(v), 0..=64 operations over {Add, Sub, Mul, Square, Neg, Double, DivBy2, New, Zero, One, Select, CopyFrom, FromMont, Renew(new(retrieve)), MulChain(one multiplier object: mul, square, mul)}; integers for new from {0, 1, m-1, (m±1)/2, m-2, random < m, m, m+1, 2^B-1, any n-limb integer}); each operation uses one API form chosen by the tape (inherent method, operator by value / by reference, *_assign, Monty / Square / SquareAssign / MontyMultiplier trait forms, subtle selection forms). After EVERY step the destination register is compared with the BigUint model: stored representation == value*R mod m (so < m), every accessor agrees, every retrieve form == value, zero queries, params(), PartialEq / ct_eq against a source register; at the end all registers are re-checked. dyn histories run the same history on MontyForm<N> and on BoxedMontyForm of the same precision; const histories run it on ConstMontyForm, on MontyForm (from_const_params) and on BoxedMontyForm (from_const_params) and check From<&ConstMontyForm> / from_montgomery conversions of every intermediate value. non-trivial: the history has >= 1 multiplication (Mul, Square, MulChain) followed later by >= 1 Add/Sub and length >= 8, OR m is one of the adversarial classes named in the property (1, 3, 2^B-1, 2^(B-1)±1, ~2^B/3, ~2^B/4, 2^k±1 at a limb boundary, whole zero high limbs); distinct by (limb count, modulus class, op-kind multiset). params sub-checks: one modulus per case, non-trivial when the modulus is adversarial or > 1, distinct by modulus limbs. reduction/mul_mod sub-checks: distinct by (m, operands); non-trivial when the final subtraction or top carry is needed, the upper half of T is non-zero, or m adversarial (reduction) / operands > 1 or m adversarial (mul_mod). surface/* sub-checks (API-surface audit): the history / params / reduction / mul_mod / serde-construction checks above at 5 and 7 limbs with the same rules; surface/select: two moduli, two values, one of the six selection forms (subtle conditional_select / conditional_assign / conditional_swap, ConstantTimeSelect ct_select / ct_assign / ct_swap) for the parameter set and one for the value, then arithmetic with what was selected, non-trivial by the params rule on the chosen modulus; surface/generic-integer-monty: a fixed 19-step expression (mul steps followed by add/sub steps) written against the Monty trait bound only, every step compared, always non-trivial; surface/const-select+zeroize+random: ConstMontyForm through the ConstantTimeSelect forms, Zeroize and Random, non-trivial by the params rule. Since seeding round 4: construct/serde also decodes in place (Deserialize::deserialize_in_place) over a live value.",
         assumptions: vec![
             "num-bigint arithmetic (incl. modinv) is correct (independent implementation)".into(),
             "bridging uses from_words/to_words only; the oracle never calls crypto-bigint".into(),
